@@ -231,6 +231,53 @@ def _histories(shard, ctx, col, des, R, np):
                                       'the FIPS 46-3 state for the current array contents: got=%s expected=%s' % (kf, shape, pos, ev, list(seq), np.atleast_2d(got)[-1].tolist(), np.atleast_2d(exp)[-1].tolist()), case)
             col.outcomes.add(seq)
     col.sample({'check': 'call histories on reused arrays', 'depth': depth, 'menu': menu}, limit=1)
+    if kf != 8: return
+    # the same key BYTES under two legal interpretations in consecutive calls (one TDES key vs a stack of DES keys, a stack of TDES3 keys vs a stack of TDES2 keys, an expanded key vs
+    # sixteen master keys): the second call must be decided by the shape it was given, for every ordered pair of interpretations, both modes, every stop pass valid for both
+    def sched_of(row):
+        row = [int(x) for x in row]
+        n = len(row)
+        if n in (8, 16, 24):
+            ks = [R.key_schedule(row[i:i + 8]) for i in range(0, n, 8)]
+        else:
+            ks = [[row[p * 128 + r * 8:p * 128 + r * 8 + 8] for r in range(16)] for p in range(n // 128)]
+        return [ks[0], ks[0], ks[0]] if len(ks) == 1 else ([ks[0], ks[1], ks[0]] if len(ks) == 2 else ks)
+    exp128 = np.array([w for rk in R.key_schedule(k24s[0][:8]) for w in rk], dtype=np.uint8)
+    exp384 = np.array([w for p in range(3) for rk in R.key_schedule(k24s[1][8 * p:8 * p + 8]) for w in rk], dtype=np.uint8)
+    buffers = {'16B': (np.array(k24s[0][:16], dtype=np.uint8), [(16,), (2, 8)]), '24B': (np.array(k24s[0], dtype=np.uint8), [(24,), (3, 8)]),
+               '48B': (np.array(k24s[1] + k24s[2], dtype=np.uint8), [(2, 24), (3, 16), (6, 8)]), '128B': (exp128, [(128,), (16, 8), (8, 16)]),
+               '384B': (exp384, [(384,), (3, 128), (16, 24), (24, 16), (48, 8)])}
+    for bname, (buf, shapes) in buffers.items():
+        for sa in shapes:
+            for sb in shapes:
+                if sa == sb: continue
+                for dec in (False, True):
+                    passes = lambda shp: 1 if shp[-1] in (8, 128) else 3
+                    for at_des in range(min(passes(sa), passes(sb))):
+                        outs = []
+                        for shp in (sa, sb):
+                            K = buf.reshape(shp)
+                            nkeys = 1 if len(shp) == 1 else shp[0]
+                            B = blocks[0] if nkeys == 1 else blocks[np.arange(nkeys) % 16]
+                            case = {'kind': 'reinterpreted-key-bytes', 'buffer': bname, 'first_shape': list(sa), 'second_shape': list(sb), 'mode': 'dec' if dec else 'enc', 'at_des': at_des}
+                            col.evaluations += 1; col.states += 1; col.transitions += 1
+                            try:
+                                got = np.asarray((des.decrypt if dec else des.encrypt)(B, K, at_des=at_des))
+                            except Exception as e:
+                                col.violation('C06/history/raised', 'key bytes %s as %s, at_des=%d: %s: %s' % (bname, shp, at_des, type(e).__name__, e), case); break
+                            rows = np.atleast_2d(K)
+                            exp = np.array([R.tdes_trace([int(x) for x in np.atleast_2d(B)[i]], sched_of(rows[i]), dec, at_des)[(at_des, 15, 9)] for i in range(nkeys)], dtype=np.uint8)
+                            if nkeys == 1 and len(shp) == 1: exp = exp[0]
+                            outs.append((got, exp, shp))
+                        if len(outs) == 2:
+                            col.nontrivial += 1
+                            got, exp, shp = outs[1]
+                            if got.shape != exp.shape or not np.array_equal(got, exp):
+                                col.violation('C06/history/reinterpreted-key-bytes', '%s with the %s key bytes given as %s right after a call that gave the same bytes as %s (at_des=%d): result %s, FIPS 46-3 for the keys as given: %s'
+                                              % ('decrypt' if dec else 'encrypt', bname, list(sb), list(sa), at_des, np.atleast_2d(got)[-1].tolist() if got.ndim else got, np.atleast_2d(exp)[-1].tolist()), case)
+                            got, exp, shp = outs[0]
+                            if got.shape != exp.shape or not np.array_equal(got, exp):
+                                col.violation('C06/history/reinterpreted-key-bytes', '%s with the %s key bytes given as %s (at_des=%d) differs from FIPS 46-3' % ('decrypt' if dec else 'encrypt', bname, list(sa), at_des), case)
 
 
 def _weight_inputs(np, nwords, bits):
